@@ -297,6 +297,12 @@ def write_evidence(prop, spec, tier, verif_seed, n, agg, wall, violations_n,
     }
     for k, v in agg.extra.items():
         cov[k] = len(v) if isinstance(v, set) else v
+    if 'tie_vectors' in agg.extra:
+        cov['tie_vectors_possible_length_le_6'] = 127
+        cov['tie_vectors_note'] = (
+            'distinct (list length, decision vector) pairs with length <= 6 '
+            'that went through writer and reader in this batch; seeded '
+            'search with a coverage measure, not exhaustive enumeration')
     if notes:
         cov['notes'] = notes
     doc = {'property_id': prop, 'tier': tier, 'seed': verif_seed,
